@@ -1002,7 +1002,8 @@ def c17_cases(tier, seed):
             chunks = [junk_chunk(rng) for _ in range(rng.randint(2, 14))]
             keys = ["<%s>" % c.hex() for c in chunks]
         else:
-            base = gen_emacs(rng, rng.randint(4, 20), True, extra=("Tab", "C-r", "C-g", "Esc", "C-z", "C-l")) if mode == "emacs" \
+            base = gen_emacs(rng, rng.randint(4, 20), True, extra=("Tab", "C-r", "C-g", "Esc", "C-z", "C-l", "Cpr1", "Cpr2", "Cpr2", "Cpr3",
+                                                                   "Cpr5", "Unk1", "Unk3")) if mode == "emacs" \
                 else gen_vi(rng, rng.randint(4, 20), True)
             if mode == "vi" and rng.random() < 0.5:
                 # operator scripts (counts on both sides, char searches, put / undo / repeat after each operator) on typed text
